@@ -227,16 +227,29 @@ class ApiNamespace:
         linearized_aliases = []
         seen_aliases = set()  # type: typing.Set[Alias]
 
+        def referenced_aliases(data_type):
+            # type: (DataType) -> typing.List[Alias]
+            # The aliases a type expression mentions, also inside List, Map
+            # and Nullable wrappers.
+            if is_alias(data_type):
+                return [data_type]
+            refs = []  # type: typing.List[Alias]
+            for attr in ('data_type', 'key_data_type', 'value_data_type'):
+                inner = getattr(data_type, attr, None)
+                if inner is not None:
+                    refs.extend(referenced_aliases(inner))
+            return refs
+
         def add_alias(alias):
             # type: (Alias) -> None
             if alias in seen_aliases:
                 return
             elif alias.namespace != self:
                 return
-            if is_alias(alias.data_type):
-                add_alias(alias.data_type)
-            linearized_aliases.append(alias)
             seen_aliases.add(alias)
+            for referenced_alias in referenced_aliases(alias.data_type):
+                add_alias(referenced_alias)
+            linearized_aliases.append(alias)
 
         for alias in self.aliases:
             add_alias(alias)
